@@ -48,6 +48,15 @@ type Op struct {
 	Chains     []int    `json:"chains"`
 	Name       string   `json:"name"`
 	Type       string   `json:"type"`
+	Legs       []Leg    `json:"legs"`
+}
+
+// Leg is one Endpoint.crossChainCall of a multi-send transaction (op send_multi): the sender's multicall contract
+// performs the legs in order inside ONE EVM transaction, so its receipt carries one PacketSent log per leg.
+type Leg struct {
+	Dst     int    `json:"dst"`     // 0..2 peer, -1 unknown chain, -2 the TSS-secured name
+	Variant string `json:"variant"` // base | erc20 | call
+	Amount  uint64 `json:"amount"`
 }
 
 type kv struct {
@@ -92,12 +101,21 @@ func (o Op) MarshalJSON() ([]byte, error) {
 	switch o.K {
 	case "send":
 		f = append(f, kv{"dst", o.Dst}, kv{"variant", o.Variant}, kv{"amount", o.Amount}, kv{"fee", o.Fee}, kv{"commit", o.Commit})
+	case "send_multi":
+		legs := o.Legs
+		if legs == nil {
+			legs = []Leg{}
+		}
+		f = append(f, kv{"legs", legs}, kv{"commit", o.Commit})
 	case "send_raw":
 		f = append(f, kv{"dst", o.Dst}, kv{"seqdelta", o.SeqDelta}, kv{"mal", o.Mal}, kv{"commit", o.Commit})
 	case "recv":
 		f = append(f, kv{"pkt", o.Pkt}, kv{"alter", strs(o.Alter)}, kv{"enc", o.Enc}, kv{"relayer", o.Relayer}, kv{"fresh_proof", o.FreshProof}, kv{"commit", o.Commit})
 	case "recv_tss":
 		f = append(f, kv{"seq", o.Seq}, kv{"dstself", o.DstSelf}, kv{"relayer", o.Relayer}, kv{"variant", o.Variant}, kv{"commit", o.Commit})
+		if o.Mal != "" {
+			f = append(f, kv{"mal", o.Mal})
+		}
 		if o.Variant == "copy" {
 			f = append(f, kv{"pkt", o.Pkt})
 		}
@@ -106,6 +124,15 @@ func (o Op) MarshalJSON() ([]byte, error) {
 		}
 	case "ack":
 		f = append(f, kv{"ack", o.Ack}, kv{"alter", strs(o.Alter)}, kv{"relayer", o.Relayer}, kv{"fresh_proof", o.FreshProof}, kv{"commit", o.Commit})
+	case "recv_eth":
+		f = append(f, kv{"seq", o.Seq}, kv{"variant", o.Variant}, kv{"type", o.Type}, kv{"relayer", o.Relayer}, kv{"commit", o.Commit})
+	case "ack_eth":
+		f = append(f, kv{"pkt", o.Pkt}, kv{"variant", o.Variant}, kv{"type", o.Type}, kv{"relayer", o.Relayer}, kv{"commit", o.Commit})
+	case "ack_tss":
+		f = append(f, kv{"pkt", o.Pkt}, kv{"variant", o.Variant}, kv{"relayer", o.Relayer}, kv{"commit", o.Commit})
+		if o.Mal != "" {
+			f = append(f, kv{"mal", o.Mal})
+		}
 	case "update":
 		f = append(f, kv{"peer", o.Peer}, kv{"relayer", o.Relayer}, kv{"commit", o.Commit})
 	case "block":
@@ -253,6 +280,9 @@ type ActSend struct {
 	T     string  `json:"t"`
 	Sends []SendJ `json:"sends"`
 	Fail  bool    `json:"fail"`
+	// Raw: the bytes of the PacketSent logs of an ACCEPTED transaction exactly as the packet contract emitted them
+	// (monitor 24: the stored commitment is their sha256); empty for keeper-level sends
+	Raw []string `json:"raw"`
 }
 
 type ActUpdate struct {
